@@ -39,45 +39,47 @@ func (u *UploadMap) Add(upload *requests.Upload, varName string) {
 	})
 }
 
-// function extracts attached files and sets respective variables to null
+// function extracts attached files
 func extractFiles(input *requests.Request) *UploadMap {
-	uploadMap := &UploadMap{}
-	if input == nil {
-		return uploadMap
-	}
-	for varName, value := range input.Variables {
-		uploadMap.extract(value, varName)
-		// if the value was an upload, set the respective Request variable to null
-		if _, ok := value.(*requests.Upload); ok {
-			input.Variables[varName] = nil
-		}
-	}
+	uploadMap, _ := extractFilesAndVariables(input)
 	return uploadMap
 }
 
-func (u *UploadMap) extract(value interface{}, path string) {
+// extractFilesAndVariables extracts attached files and returns a copy of the variables in which the
+// respective values are null. The variables of the request itself are left untouched: their nested
+// objects and lists are shared with the requests sent to other services at the same time
+func extractFilesAndVariables(input *requests.Request) (*UploadMap, map[string]interface{}) {
+	uploadMap := &UploadMap{}
+	if input == nil {
+		return uploadMap, nil
+	}
+	variables := make(map[string]interface{}, len(input.Variables))
+	for varName, value := range input.Variables {
+		variables[varName] = uploadMap.extract(value, varName)
+	}
+	return uploadMap, variables
+}
+
+// extract registers the uploads found in value and returns a copy of value without them
+func (u *UploadMap) extract(value interface{}, path string) interface{} {
 	switch val := value.(type) {
 	case *requests.Upload: // Upload found
 		u.Add(val, path)
+		return nil
 	case map[string]interface{}:
+		res := make(map[string]interface{}, len(val))
 		for k, v := range val {
-			u.extract(v, fmt.Sprintf("%s.%s", path, k))
-			// if the value was an upload, set the respective QueryInput variable to null
-			switch v.(type) {
-			case *requests.Upload, requests.Upload:
-				val[k] = nil
-			}
+			res[k] = u.extract(v, fmt.Sprintf("%s.%s", path, k))
 		}
+		return res
 	case []interface{}:
+		res := make([]interface{}, len(val))
 		for i, v := range val {
-			u.extract(v, fmt.Sprintf("%s.%d", path, i))
-			// if the value was an upload, set the respective QueryInput variable to null
-			switch v.(type) {
-			case *requests.Upload, requests.Upload:
-				val[i] = nil
-			}
+			res[i] = u.extract(v, fmt.Sprintf("%s.%d", path, i))
 		}
+		return res
 	}
+	return value
 }
 
 func prepareMultipart(payload []byte, uploadMap UploadMap) (body []byte, contentType string, err error) {
@@ -112,7 +114,7 @@ func prepareMultipart(payload []byte, uploadMap UploadMap) (body []byte, content
 			return b.Bytes(), w.FormDataContentType(), e
 		}
 
-		_, e = io.Copy(fw, uploadVariable.upload.File)
+		e = uploadVariable.upload.CopyTo(fw)
 		if e != nil {
 			return b.Bytes(), w.FormDataContentType(), e
 		}
